@@ -147,7 +147,9 @@ META = {
         explanation="Deductive: int_to_varbyte, midi_event (both arities), note_on/off, controller_event, program_change_event, "
                     "set_deltatime, set_tempo_event, time_signature_event, key_signature_event, end_of_track, header, "
                     "get_midi_data, set_meter, set_key, set_tempo, play_/stop_Note, play_/stop_NoteContainer, play_Bar, "
-                    "play_Track, MidiFile.header, MidiFile.get_midi_data. Bounded: whole files via bounded/drivers/C16.py. "
+                    "play_Track, track_name_event / set_track_name (any ASCII name, length as a VLQ, non-ASCII refused), "
+                    "MidiTrack.__init__ / reset, set_tempo_event refusing tempi that do not fit three bytes, MidiFile.header, "
+                    "MidiFile.get_midi_data. Bounded: whole files via bounded/drivers/C16.py. "
                     "Repaired in /repo while writing these contracts: 8a5bd09 (header counted tracks without data).",
     ),
     "C17": dict(
@@ -210,7 +212,8 @@ META = {
         level_note=TB + " Ghost trace: the five subclass hooks, notify_listeners (in the per-call contracts) and the observer "
                         "callbacks are abstract and modelled as appending one record.",
         explanation="Deductive: control_change, modulation, main_volume, pan, set_instrument, play_Note, stop_Note, "
-                    "play_/stop_NoteContainer, play_Bar, play_Track, Track.add_notes, SequencerObserver.notify, lemma "
+                    "play_/stop_NoteContainer, play_Bar, play_Track, Track.add_notes, SequencerObserver.notify, "
+                    "Sequencer.__init__ (own listener list) / attach / detach, lemma "
                     "c18_every_listener_in_order. Bounded: bounded/drivers/C18.py.",
     ),
     "C19": dict(
@@ -288,8 +291,8 @@ META = {
                    "of first occurrence.",
         level_note=TB + " The deductive piece is bounded in container size (<= 2 notes before the call), unbounded in pitches.",
         explanation="Deductive: NoteContainer.add_note (Note and bare-name forms), add_notes(container), remove_note (2 forms), the four "
-                    "consonance predicates, get_note_names. Bounded: "
-                    "bounded/drivers/C12.py.",
+                    "consonance predicates, get_note_names, remove_notes and '-' (a name, a Note, a list of two names), __init__ "
+                    "(own note list), __len__, __getitem__, __eq__. Bounded: bounded/drivers/C12.py.",
     ),
     "C13": dict(
         claimed=True, level="other",
@@ -309,7 +312,9 @@ META = {
                    "exact-rational one for the value vocabulary) depend on IEEE rounding: decided by the driver against an exact "
                    "Fraction model.",
         level_note=TB + " float-as-real in the deductive part; the float-vs-rational question is bounded only.",
-        explanation="Deductive: Bar.set_meter, is_full, space_left, place_notes (4 argument shapes), remove_last_entry, place_notes_at, __setitem__, empty, __len__, value_left. Bounded: bounded/drivers/C13.py.",
+        explanation="Deductive: Bar.__init__ (30 keys x any meter: own entry list, refusals), set_meter, is_full, space_left, "
+                    "place_notes (5 argument shapes incl. the empty list), place_rest, '+', remove_last_entry, place_notes_at, "
+                    "__getitem__, __setitem__ (a container; a list of two names), empty, __len__, value_left. Bounded: bounded/drivers/C13.py.",
     ),
     "C14": dict(
         claimed=True, level="other",
@@ -327,7 +332,9 @@ META = {
                    "Composition.add_track append exactly the given object to a list of ANY length.",
         level_note=TB,
         explanation="Deductive: Track.add_notes (2 item kinds), add_bar, __len__, Composition.add_track / __len__ / empty / set_title / "
-                    "set_author, Instrument.note_in_range / can_play_notes / set_range, NoteContainer.__eq__. Bounded: bounded/drivers/C14.py (166k cases quick). Repaired in /repo: "
+                    "set_author / reset / __init__ / __getitem__ / __setitem__, Track.__init__ / __getitem__ / __setitem__ / '+', "
+                    "Instrument.note_in_range / can_play_notes / notes_in_range / set_range, Guitar.can_play_notes, "
+                    "NoteContainer.__eq__. Bounded: bounded/drivers/C14.py (166k cases quick). Repaired in /repo: "
                     "rest with instrument, Guitar.can_play_notes, Composition.__eq__, container == rest.",
     ),
     "C15": dict(
@@ -343,7 +350,9 @@ META = {
                    "called before, sibling instances, copies, fft position memory) are decided by the driver with cold "
                    "interpreter workers.",
         level_note=TB,
-        explanation="Deductive: is_fresh / frame obligations on get_notes, triads, sevenths, invert, chords.invert & inversions. "
+        explanation="Deductive: is_fresh / frame obligations on get_notes, triads, sevenths, invert, chords.invert & inversions; the "
+                    "constructors of Bar, Track, Composition, NoteContainer allocate their own lists (what a pre-state object "
+                    "holds never counts as fresh). "
                     "Bounded: bounded/drivers/C15.py (1.6M evaluations quick). Ten deviations repaired in /repo.",
     ),
 }
